@@ -297,4 +297,14 @@ fn main() {
         println!("import records: {} (expected 1: only `kept` is in the encoded module)", n);
         show("S23", &m.encode());
     });
+    run("S24 element segment in expression form after adding an imported function (C06)", || {
+        // expected: the element still designates $f (now function 1)
+        let w = wat::parse_str(r#"(module (table 1 funcref) (func $f) (elem (i32.const 0) funcref (ref.func $f)) (export "f" (func $f)))"#).unwrap();
+        let mut m = Module::parse(&w, false).unwrap();
+        let ty = m.types.add_func_type(&[], &[], None);
+        m.add_import_func("env".into(), "imp".into(), ty);
+        let b = m.encode();
+        println!("validates: {}", wasmparser::validate(&b).is_ok());
+        show("S24", &b);
+    });
 }
